@@ -116,6 +116,9 @@ Record SInv (st : state) (es : estate) : Prop := mkSInv {
   n_accobj : forall b h, In (b, h) (s_acc_id st) -> h < lenN (s_objs st);
   n_parsedobj : forall b h, In (b, h) (s_parsed st) -> h < lenN (s_objs st);
   n_lastchain : In (e_last es) (e_chain es);
+  n_chain_rej : forall b, In b (e_chain es) -> ~ In b (e_rej es);
+  n_accchain : forall b h, In (b, h) (s_acc_id st) -> In b (e_chain es);
+  n_dihchain : forall b k, lookup b (s_dih st) = Some k -> In b (e_chain es);
   n_sync : e_started es = true -> SyncPart st es
 }.
 
@@ -180,6 +183,7 @@ Hypothesis F8 : s_blocks st0 = e_blocks es.
 Hypothesis F9 : forall b, hasK b (e_proc es) = true -> e_height es b = e_height es (e_parent es b) + 1.
 Hypothesis F10 : forall b, hasK b (e_proc es) = true -> hasK (e_parent es b) (e_proc es) = false ->
                  e_parent es b <> e_last es ->
+                 get_block st0 (e_parent es b) = None \/
                  exists r, get_block st0 (e_parent es b) = Some r /\ o_verified (ref_obj st0 r) = false /\
                            o_id (ref_obj st0 r) = e_parent es b.
 Hypothesis F13 : NoDup (map fst (e_proc es)).
@@ -296,7 +300,12 @@ Proof.
         -- apply Bad; [|reflexivity|reflexivity].
            intros Hg. apply good_inv in Hg. destruct Hg as (_ & Hv & _). congruence.
         -- apply Good. apply good_root; assumption.
-      * destruct (F10 b Hbk) as (r & Hr & Hru & Hrid); [unfold hasK; fold p; rewrite Ep; reflexivity | exact Hpl |].
+      * assert (Hngb : ~ good es b).
+        { intros Hg. apply good_inv in Hg. destruct Hg as (_ & _ & [Hg|[Hg _]]); [contradiction|].
+          unfold hasK in Hg. fold p in Hg. rewrite Ep in Hg. discriminate. }
+        destruct (F10 b Hbk) as [Hr|(r & Hr & Hru & Hrid)]; [unfold hasK; fold p; rewrite Ep; reflexivity | exact Hpl | |].
+        { fold p in Hr. rewrite Hr. destruct (Bad []) as (st' & inv' & evs2 & A & B); [exact Hngb|reflexivity|reflexivity|].
+          rewrite app_nil_r in A. exists st', inv', evs2. split; [exact A | exact B]. }
         fold p in Hr, Hrid. rewrite Hr.
         assert (o_verified (ref_obj cur r) = false) as ->.
         { destruct r as [h'|b']; [|reflexivity]. cbn [ref_obj] in *.
@@ -376,14 +385,14 @@ Record Finished (es : estate) (st' : state) (u : list N) : Prop := mkFin {
 }.
 
 Lemma finish_step c Q st es t :
-  1 <= c_W c -> SInv st es -> eguard Q es (OFinishSync t) = true -> orphan_free es = true ->
+  1 <= c_W c -> SInv st es -> eguard Q es (OFinishSync t) = true ->
   exists st' u evs2,
     step c st (OFinishSync t) = (st', RUnit, exec_chain t (after t (e_sync es)) ++ evs2) /\
     accepts evs2 = [] /\ naccepted evs2 = [] /\ Finished es st' u /\
     s_blocks st' = s_blocks st /\ lenN (s_objs st) <= lenN (s_objs st') /\
     (forall h, h < lenN (s_objs st) -> o_id (obj_of st' h) = o_id (obj_of st h)).
 Proof.
-  intros HW HS HG Hof. cbn [eguard] in HG.
+  intros HW HS HG. cbn [eguard] in HG.
   apply andb_true_iff in HG. destruct HG as [HG Ht]. apply andb_true_iff in HG. destruct HG as [Hst _].
   apply memN_In in Ht.
   pose proof (n_sync _ _ HS Hst) as Y.
@@ -468,7 +477,15 @@ Proof.
   - intros b Hk. apply hasK_lookup in Hk. destruct Hk as [h Hb].
     destruct (n_procobj _ _ HS _ _ Hb) as (_ & Hlt & _ & _ & Hpne). apply (n_tree _ _ HS _ Hlt Hpne).
   - intros b Hk Hpk Hpl.
-    destruct (y_procpar _ _ Y _ Hk) as [Hp|[Hp|Hp]]; [congruence | | exfalso; exact (orphan_free_spec _ _ Hof Hk Hp)].
+    destruct (y_procpar _ _ Y _ Hk) as [Hp|[Hp|Hp]]; [congruence | right | left].
+    2:{ (* the parent was rejected: it is nowhere to be found *)
+      set (p := e_parent es b) in *.
+      unfold get_block, disk_get. unfold st2. cbn [set_lastproc s_verified s_acc_id s_dih s_dhi]. rewrite Hv1, (n_proc _ _ HS).
+      unfold hasK in Hpk. destruct (lookup p (e_proc es)); [discriminate|].
+      destruct (lookup p (s_acc_id st1)) as [h'|] eqn:El.
+      - exfalso. apply (n_chain_rej _ _ HS p); [|exact Hp]. apply (n_accchain _ _ HS p h'). apply lookup_In. exact (Hacc1 _ _ Hpl El).
+      - rewrite Hdih1. destruct (lookup p (s_dih st)) as [k|] eqn:Ed; [|reflexivity].
+        exfalso. apply (n_chain_rej _ _ HS p); [|exact Hp]. exact (n_dihchain _ _ HS _ _ Ed). }
     set (p := e_parent es b) in *.
     destruct (y_sync_in _ _ Y _ Hp) as (_ & _ & Hd1 & Hd2).
     unfold get_block, disk_get. unfold st2. cbn [set_lastproc s_verified s_acc_id s_dih s_dhi]. rewrite Hv1, (n_proc _ _ HS).
@@ -774,6 +791,13 @@ Proof.
   - rewrite sla_accid. apply keys_fifo_nodup. exact n_accnd0.
   - rewrite sla_accid, sla_objs. intros b0 h0 Hin. apply In_fifo_put in Hin. destruct Hin as [[_ ->]|Hin]; [exact Hhlt | exact (n_accobj0 _ _ Hin)].
   - cbn [e_last e_chain]. left. reflexivity.
+  - cbn [e_chain e_rej]. intros b0 [<-|Hin]; [exact Hnrej | exact (n_chain_rej0 _ Hin)].
+  - rewrite sla_accid. cbn [e_chain]. change (obj_of (set_verified _ (index_write b st)) h) with (obj_of st h). rewrite Hobj.
+    intros b0 h0 Hin. apply In_fifo_put in Hin. destruct Hin as [[-> _]|Hin]; [left; reflexivity | right; exact (n_accchain0 _ _ Hin)].
+  - change (s_dih (set_last_accepted c h (set_verified _ (index_write b st)))) with (mput b (height st b) (s_dih st)).
+    cbn [e_chain]. intros b0 k. rewrite lookup_mput. destruct (b0 =? b) eqn:E.
+    + apply N.eqb_eq in E. subst b0. intros _. left. reflexivity.
+    + intros Hq. right. exact (n_dihchain0 _ _ Hq).
   - cbn [e_started]. intros Hst. pose proof (n_sync0 Hst) as Y.
     pose proof (fun x => sync_height_le _ _ x Y) as Hle. destruct Y. constructor.
     + cbn [e_proc e_sync e_rej]. intros b0. fold_es es. rewrite hasK_remove_key. intros Hk. apply andb_true_iff in Hk. destruct Hk as [Hne Hk].
@@ -835,6 +859,7 @@ Proof.
     apply N.eqb_neq in E. intros Hq0. destruct (n_procobj0 _ _ Hq0) as (A & B & C & D & F). repeat split; auto.
     intros X. apply in_app_or in X. destruct X as [X|[X|[]]]; [contradiction | congruence].
   - cbn [e_proc]. apply keys_remove_nodup. exact n_procnd0.
+  - cbn [e_chain e_rej]. intros b0 Hin X. apply in_app_or in X. destruct X as [X|[X|[]]]; [exact (n_chain_rej0 _ Hin X) | subst b0; contradiction].
   - cbn [e_started]. intros Hst. pose proof (n_sync0 Hst) as Y. destruct Y. constructor; try hyp.
     + cbn [e_proc e_sync e_rej]. intros b0. fold_es es. rewrite hasK_remove_key. intros Hk. apply andb_true_iff in Hk. destruct Hk as [Hne Hk].
       destruct (y_procpar0 _ Hk) as [A|[A|A]].
@@ -858,17 +883,27 @@ Record Pre (st : state) (es : estate) : Prop := mkPre {
   p_ver : forall h b, oiv st h = Some (b, true) -> In b (e_chain es) \/ In b (e_rej es);
   p_accnd : NoDup (map fst (s_acc_id st));
   p_accobj : forall b h, In (b, h) (s_acc_id st) -> h < lenN (s_objs st);
-  p_parsedobj : forall b h, In (b, h) (s_parsed st) -> h < lenN (s_objs st)
+  p_parsedobj : forall b h, In (b, h) (s_parsed st) -> h < lenN (s_objs st);
+  p_lastchain : In (e_last es) (e_chain es);
+  p_chain_rej : forall b, In b (e_chain es) -> ~ In b (e_rej es);
+  p_accchain : forall b h, In (b, h) (s_acc_id st) -> In b (e_chain es);
+  p_dihchain : forall b k, lookup b (s_dih st) = Some k -> In b (e_chain es)
 }.
 
 Lemma sinv_pre st es : SInv st es -> Pre st es.
 Proof. intros HS. destruct HS. constructor; assumption. Qed.
 
-Lemma inv_pre st es tr : Inv st es tr -> e_built es = [] -> e_proc es = [] -> NoDup (map fst (s_acc_id st)) -> Pre st es.
+Definition DInv (st : state) (es : estate) : Prop :=
+  forall b k, lookup b (s_dih st) = Some k -> In b (e_chain es).
+
+Lemma inv_pre st es tr : Inv st es tr -> e_built es = [] -> e_proc es = [] -> NoDup (map fst (s_acc_id st)) ->
+  DInv st es -> Pre st es.
 Proof.
-  intros HI Hb Hp Hnd. constructor; try (old HI); try assumption.
+  intros HI Hb Hp Hnd Hd. constructor; try (old HI); try assumption.
   - intros h b Hv. destruct (i_unv _ _ _ HI _ _ Hv) as [A|[A|A]]; [rewrite Hb in A; destruct A | rewrite Hp in A; discriminate | exact A].
   - intros b h Hin. destruct (i_accid _ _ _ HI _ _ Hin) as [[v Hv] _]. eapply oiv_lt; eauto.
+  - exact (proj2 (proj2 (i_last _ _ _ HI))).
+  - intros b h Hin. exact (proj2 (i_accid _ _ _ HI _ _ Hin)).
 Qed.
 
 Lemma sinv_start c Q st es b st' r evs :
@@ -903,6 +938,17 @@ Proof.
     destruct Hin as [[_ ->]|Hin]; [lia | pose proof (p_accobj0 _ _ Hin); lia].
   - rewrite sla_objs, Hlen3. intros b0 h0 Hin. pose proof (p_parsedobj0 _ _ Hin). lia.
   - cbn [e_last e_chain]. left. reflexivity.
+  - cbn [e_chain e_rej]. intros b0 [<-|Hin]; [|exact (p_chain_rej0 _ Hin)].
+    apply orb_true_iff in Htgt. destruct Htgt as [Ht|Ht].
+    + apply N.eqb_eq in Ht. subst b. exact (p_chain_rej0 _ p_lastchain0).
+    + apply andb_true_iff in Ht. destruct Ht as [Ht _]. apply andb_true_iff in Ht. destruct Ht as [_ Ht].
+      apply negb_true_iff in Ht. apply memN_false in Ht. exact Ht.
+  - rewrite sla_accid, Hobjnew. cbn [e_chain]. intros b0 h0 Hin. apply In_fifo_put in Hin.
+    destruct Hin as [[-> _]|Hin]; [left; reflexivity | right; exact (p_accchain0 _ _ Hin)].
+  - change (s_dih (set_last_accepted c (lenN (s_objs st)) st3)) with (mput b (height st b) (s_dih st)).
+    cbn [e_chain]. intros b0 k. rewrite lookup_mput. destruct (b0 =? b) eqn:E.
+    + apply N.eqb_eq in E. subst b0. intros _. left. reflexivity.
+    + intros Hq. right. exact (p_dihchain0 _ _ Hq).
   - intros _. constructor.
     + cbn [e_proc]. rewrite Hp0. intros b0 Hk. discriminate.
     + rewrite sla_last, sla_accid. cbn [e_last]. split; [exact Hnew|]. rewrite Hobjnew. apply lookup_fifo_put_eq. exact HW.
@@ -917,7 +963,7 @@ Qed.
 
 (* ------------------------------------------------------------------ every run up to FinishStateSync *)
 Definition Phase (st : state) (es : estate) (tr : list event) : Prop :=
-  (Inv st es tr /\ e_built es = [] /\ NoDup (map fst (s_acc_id st))) \/ SInv st es.
+  (Inv st es tr /\ e_built es = [] /\ NoDup (map fst (s_acc_id st)) /\ DInv st es) \/ SInv st es.
 
 Definition plain_op (o : op) : bool := match o with OFinishSync _ | OBuild => false | _ => true end.
 
@@ -941,18 +987,56 @@ Proof.
   - destruct r; reflexivity.
 Qed.
 
+Lemma step_dih c st o st' r evs : sync_op o = false -> step c st o = (st', r, evs) ->
+  s_dih st' = s_dih st \/
+  exists h ob, o = OAccept h /\ nthN (s_objs st) h = Some ob /\ r = RUnit /\
+               s_dih st' = mput (o_id ob) (height st (o_id ob)) (s_dih st).
+Proof.
+  intros Hs HP. destruct o; try discriminate Hs; cbn [step] in HP; unfold do_parse, lru_get, alloc in HP;
+    repeat match type of HP with context [match ?x with _ => _ end] => destruct x eqn:? end;
+    injection HP as <- <- <-; first [left; reflexivity | right; eauto 10].
+Qed.
+
+Lemma eupd_chain_incl es o r evs x : sync_op o = false -> In x (e_chain es) -> In x (e_chain (eupd es o r evs)).
+Proof.
+  intros Hs Hin. destruct o as [pp ii|pb| |vh|ah|rh|sb| |gb|gk|gk| | | | |sb|fb]; try discriminate Hs; cbn [eupd]; try exact Hin.
+  - rewrite learn_eq. destruct r as [| |[h1|b1] b2 v a| |]; exact Hin.
+  - rewrite learn_eq. destruct r as [| |[h1|b1] b2 v a| |]; exact Hin.
+  - destruct r as [| |[h1|b1] b2 v a| |]; try exact Hin. destruct evs as [|[] [|]]; exact Hin.
+  - destruct r; try exact Hin. destruct (lookup vh (e_hid es)); exact Hin.
+  - destruct r; try exact Hin. destruct (lookup ah (e_hid es)); [right|]; exact Hin.
+  - destruct r; try exact Hin. destruct (lookup rh (e_hid es)); exact Hin.
+  - destruct r; exact Hin.
+Qed.
+
+Lemma step_dinv c Q st es tr o st' r evs :
+  Inv st es tr -> sync_op o = false -> eguard Q es o = true -> step c st o = (st', r, evs) ->
+  DInv st es -> DInv st' (eupd es o r evs).
+Proof.
+  intros HI Hs HG HP Hd b k Hl.
+  destruct (step_dih _ _ _ _ _ _ Hs HP) as [E|(h & ob & -> & Hn & -> & E)].
+  - rewrite E in Hl. apply eupd_chain_incl; [exact Hs | exact (Hd _ _ Hl)].
+  - cbn [eguard] in HG. destruct (lookup h (e_hid es)) as [b1|] eqn:Eh; [|discriminate].
+    destruct (i_hid _ _ _ HI _ _ Eh) as [v Hv]. destruct (oiv_inv _ _ _ _ Hv) as (ob' & A & B & _).
+    rewrite Hn in A. injection A as <-. cbn [eupd]. rewrite Eh. cbn [e_chain].
+    rewrite E, lookup_mput, B in Hl. destruct (b =? b1) eqn:Eb.
+    + apply N.eqb_eq in Eb. left. symmetry. exact Eb.
+    + right. exact (Hd _ _ Hl).
+Qed.
+
 Lemma phase_step c Q st es tr o st' r evs :
   1 <= c_W c -> Phase st es tr -> plain_op o = true -> eguard Q es o = true ->
   step c st o = (st', r, evs) -> Phase st' (eupd es o r evs) (tr ++ evs).
 Proof.
-  intros HW [(HI & Hb & Hnd)|HS] Hpl HG HP.
+  intros HW [(HI & Hb & Hnd & Hdi)|HS] Hpl HG HP.
   - destruct (sync_op o) eqn:Eso.
     + destruct o; try discriminate Eso; try discriminate Hpl. right.
       assert (e_proc es = []) as Hp0.
       { cbn [eguard] in HG. repeat (apply andb_true_iff in HG; destruct HG as [HG ?]). destruct (e_proc es); [reflexivity | discriminate]. }
-      exact (proj1 (sinv_start _ _ _ _ _ _ _ _ HW (inv_pre _ _ _ HI Hb Hp0 Hnd) HG HP)).
+      exact (proj1 (sinv_start _ _ _ _ _ _ _ _ HW (inv_pre _ _ _ HI Hb Hp0 Hnd Hdi) HG HP)).
     + left. split; [eapply inv_step; eauto|]. split; [rewrite eupd_built by exact Hpl; exact Hb|].
-      destruct (step_accid _ _ _ _ _ _ Eso HP) as [->|(k & v & ->)]; [exact Hnd | apply keys_fifo_nodup; exact Hnd].
+      split; [destruct (step_accid _ _ _ _ _ _ Eso HP) as [->|(k & v & ->)]; [exact Hnd | apply keys_fifo_nodup; exact Hnd]|].
+      eapply step_dinv; eauto.
   - right. destruct o; try discriminate Hpl.
     + cbn [step] in HP. cbn [eupd]. rewrite (n_blocks _ _ HS) in HP.
       pose proof (sinv_add_block _ _ (new_binfo (e_blocks es) parent invalid) HS (new_binfo_tree es parent invalid)) as HS2.
@@ -992,7 +1076,9 @@ Qed.
 Lemma phase_init c : Phase (init_state c) (init_estate c) (init_events c).
 Proof.
   destruct (c_ready c) eqn:Hr.
-  - left. split; [apply inv_init; exact Hr|]. split; [reflexivity|]. cbn. repeat constructor. intros [].
+  - left. split; [apply inv_init; exact Hr|]. split; [reflexivity|]. split; [cbn; repeat constructor; intros []|].
+    intros b k. unfold init_state. cbn [s_dih lookup init_estate e_chain]. destruct (b =? 0) eqn:E; [|discriminate].
+    apply N.eqb_eq in E. intros _. left. symmetry. exact E.
   - right. unfold init_state, init_estate. rewrite Hr.
     constructor; cbn; try reflexivity; try tauto.
     + intros b Hb Hne. exfalso. apply Hne. unfold init_blocks, lenN in Hb. cbn in Hb. unfold e_parent, e_binfo, nthN. cbn.
@@ -1003,6 +1089,8 @@ Proof.
     + constructor.
     + repeat constructor. intros [].
     + intros b h [[= <- <-]|[]]. unfold lenN. cbn. lia.
+    + intros b h [[= <- <-]|[]]. left. reflexivity.
+    + intros b k. destruct (b =? 0) eqn:E; [|discriminate]. apply N.eqb_eq in E. intros _. left. symmetry. exact E.
     + discriminate.
 Qed.
 
@@ -1010,15 +1098,15 @@ Qed.
 Theorem handover_finish c Q ops t st es tr :
   1 <= c_W c -> plain_ops ops = true ->
   erun c Q (init_state c) (init_estate c) ops = Some (st, es, tr) ->
-  eguard Q es (OFinishSync t) = true -> orphan_free es = true ->
+  eguard Q es (OFinishSync t) = true ->
   exists st' u evs2,
     step c st (OFinishSync t) = (st', RUnit, exec_chain t (after t (e_sync es)) ++ evs2) /\
     accepts evs2 = [] /\ naccepted evs2 = [] /\ Finished es st' u.
 Proof.
-  intros HW Hpl HR HG Hof.
+  intros HW Hpl HR HG.
   pose proof (phase_erun c Q HW ops Hpl _ _ _ _ _ _ (phase_init c) HR) as [(HI & _)|HS].
   - exfalso. cbn [eguard] in HG. rewrite (i_eready _ _ _ HI) in HG. cbn in HG. rewrite andb_false_r in HG. discriminate.
-  - destruct (finish_step c Q st es t HW HS HG Hof) as (st' & u & evs2 & A & B & C & D & _). eauto 10.
+  - destruct (finish_step c Q st es t HW HS HG) as (st' & u & evs2 & A & B & C & D & _). eauto 10.
 Qed.
 
 (* the answers right after the hand-over *)
